@@ -60,6 +60,16 @@ CHECKS = {
    "For every distinct state and each way of closing, the bytes are decoded by a decoder written from the format description: whole column-major rows, offset-binary integers, live string references, catalog = existing tables numbered 1..n, refcount(entry) = number of referring cells in all tables, unused entries empty, no live empty entry, decoded rows = model rows.",
    "Trusted: dec.rs (independent decoder), cfb for the container layer, encoding_rs by label for text.",
    "DESIGN.md §4 C08"),
+ "C10": (E1, "model_checking",
+   "explicit-state BFS over summary setters/clearers/code-page switches on the real Package + bounded-exhaustive product code page x property x string length class; strict independent property-set parser",
+   "E1: every sequence over the summary alphabet up to the completed depth; after each step the getters equal the model, every state is saved three ways, the raw summary stream is parsed by a strict independent parser (aligned offsets pointing at typed values, exact section size, values equal to the model's in the chosen code page) and the file is reopened. E2: 26 code pages x 6 string properties x strings of every (UTF-8 length, encoded length) residue class.",
+   "Trusted: dec.rs parse_summary, encoding_rs by label for representability. Architecture strings without ';'.",
+   "DESIGN.md §4 C10"),
+ "C11": (E1, "model_checking",
+   "explicit-state BFS over stream write/overwrite/remove on a set of colliding names x contents, interleaved with table operations and reopen; raw container listing as second oracle",
+   "Every sequence up to the completed depth over names forced to collide (case pairs, packing-range characters, table marker, reserved characters, table names, \\u{5} names, 31/32-unit names) and contents on both sides of the mini-stream cutoff; after each step listing and contents equal the model; in every state every name of the set is probed with has_stream/read_stream, the raw container entry list is compared with the listing, and the package is saved and reopened; a second exploration starts from a signed seed.",
+   "Trusted: the stream-name reference in ops.rs (what must be accepted / refused / is left open), dec.rs name mangler.",
+   "DESIGN.md §4 C11"),
 }
 PENDING_REASON = "check not built yet (work in progress; DESIGN.md names the planned engine)"
 
